@@ -32,8 +32,13 @@ ConvConfigs == {[kind |-> "conv", n |-> n, c |-> c, f |-> f, x |-> x, w |-> w, s
                 s \in Dims(ND, 1..MaxS), p \in Dims(ND, 0..MaxP), d \in Dims(ND, 1..MaxD)}
 PoolConfigs == {[kind |-> "pool", n |-> n, x |-> x, w |-> w, s |-> s] :
                 n \in {1, 2}, x \in Dims(ND, 1..MaxX), w \in Dims(ND, 1..MaxW), s \in Dims(ND, 1..MaxS)}
+\* losses with exact (rational) formulas: margins are given in halves (h2 = 2*margin)
+HingeConfigs == {[kind |-> "hinge", n |-> n, c |-> c, h2 |-> h, variant |-> v] :
+                   n \in 1..3, c \in 2..3, h \in {0, 1, 2, 4, 10}, v \in 1..2}
+MarginConfigs == {[kind |-> "margin", n |-> n, m2 |-> m, variant |-> v] : n \in 1..4, m \in {0, 1, 2, 5}, v \in 1..2}
 Configs == IF Kind \in {"sw1", "sw2"} THEN {c \in SwConfigs : c.dgiven \/ \A i \in 1..ND : c.d[i] = 1}
-           ELSE IF Kind \in {"conv1", "conv2"} THEN ConvConfigs ELSE PoolConfigs
+           ELSE IF Kind \in {"conv1", "conv2"} THEN ConvConfigs
+           ELSE IF Kind = "losses" THEN HingeConfigs \cup MarginConfigs ELSE PoolConfigs
 
 \* deterministic fillers (the harness builds the same arrays)
 FillX(i) == ((i * 7) % 11) - 5          \* i = 0-based flat index
@@ -118,6 +123,19 @@ PoolOut(c) ==
                     LET wi == Unravel(t, c.w)
                     IN FillX(Ravel(<<n>> \o [i \in 1..ND |-> g[i] * c.s[i] + wi[i]], PoolXShape(c)) - 1)])]
 
+\* ---------------------------------------------------------------- losses (documented formulas, evaluated naively)
+\* multiclass_hinge(x, y, hinge) = (1/N) sum_i sum_{j # y_i} max(0, x_ij - x_iy + hinge) ;  labels y_i = (i * variant) mod C
+PosPart(a) == IF a > 0 THEN a ELSE 0
+HingeLabel(c, i) == ((i - 1) * c.variant) % c.c                      \* 0-based class of (1-based) sample i
+HingeX(c, i, j) == FillX((i - 1) * c.c + j)                           \* j 0-based
+\* twice the un-normalised sum (so that half-integer margins stay integral); the loss is  Hinge2Sum / (2 N)
+Hinge2Sum(c) == SeqSum([i \in 1..c.n |->
+                  SeqSum([jj \in 1..c.c |-> IF jj - 1 = HingeLabel(c, i) THEN 0
+                                            ELSE PosPart(2 * (HingeX(c, i, jj - 1) - HingeX(c, i, HingeLabel(c, i))) + c.h2)])])
+\* margin_ranking_loss(x1, x2, y, margin) = mean(max(0, margin - y (x1 - x2))) ;  y_i = +1 / -1 alternating by variant
+MarginY(c, i) == IF (i + c.variant) % 2 = 0 THEN 1 ELSE -1
+Margin2Sum(c) == SeqSum([i \in 1..c.n |-> PosPart(c.m2 - 2 * MarginY(c, i) * (FillX(i - 1) - FillK(i - 1)))])
+
 \* ---------------------------------------------------------------- expected outcome of every configuration
 Expected(c) ==
   CASE c.kind = "sw" ->
@@ -127,6 +145,8 @@ Expected(c) ==
          IF ConvValid(c) THEN [accept |-> TRUE, shape |-> ConvOutShape(c), vals |-> ConvOut(c),
                                kf |-> IF KF_C16_1(c) THEN "F-C16-1" ELSE ""]
          ELSE [accept |-> FALSE, kf |-> ""]
+    [] c.kind = "hinge"  -> [accept |-> TRUE, num |-> Hinge2Sum(c), den |-> 2 * c.n, kf |-> ""]
+    [] c.kind = "margin" -> [accept |-> TRUE, num |-> Margin2Sum(c), den |-> 2 * c.n, kf |-> ""]
     [] c.kind = "pool" ->
          IF PoolValid(c) THEN [accept |-> TRUE, shape |-> PoolOutShape(c), vals |-> PoolOut(c), kf |-> ""]
          ELSE [accept |-> FALSE, kf |-> ""]
